@@ -201,6 +201,28 @@ func genC16(t *Tape) (*SrvScenario, int) {
 		}
 		sc.Conns = append(sc.Conns, plan)
 	}
+	if t.Chance(1, 150) {
+		// a crowd: some 70-130 further clients connect one after the other, send one valid request and hang up without
+		// waiting for the reply (their handlers are still at work then, some of them panic); the connections generated
+		// above come after them and must be served as if nothing had happened
+		crowd := 66 + t.Choose(64)
+		for k := 0; k < crowd; k++ {
+			ci := len(sc.Conns)
+			r := genC16Req(t, "valid", t.Choose(len(AllFCs)), byte(1+ci), uint16(tidBase+ci*16))
+			switch t.Choose(4) {
+			case 0:
+				r.Mode = HPanic
+			case 1, 2:
+				r.Mode, r.Work = HSlow, time.Duration(1+t.Choose(10))*time.Millisecond
+			}
+			sc.Conns = append(sc.Conns, SrvConnPlan{Reqs: []SrvReq{r}, Writes: []int{len(r.Frame)}, Gaps: []time.Duration{0}, Pipelined: true, AbortMid: true,
+				StartDelay: time.Duration(k)*500*time.Microsecond + time.Duration(t.Choose(700))*time.Microsecond})
+		}
+		for ci := 0; ci < nconn; ci++ {
+			sc.Conns[ci].StartDelay = time.Duration(crowd)*500*time.Microsecond + time.Duration(20+t.Choose(60))*time.Millisecond
+		}
+		sc.LongPauses = true
+	}
 	if nconn > 1 && t.Chance(1, 6) {
 		// the subject connection dies in the middle of a frame; the others connect only afterwards
 		sp := &sc.Conns[subject]
@@ -402,7 +424,10 @@ func runC16(rc *RunCtx) {
 			if !bytes.Equal(out.Conns[ci].Received, twin.Conns[ci].Received) {
 				rc.Violate("cross_connection_effect", "other_conn", "connection %d received %x with the faulty connection present and %x without it", ci, trunc(out.Conns[ci].Received, 40), trunc(twin.Conns[ci].Received, 40))
 			}
-			// and the bystanders' replies must be right in themselves
+			// and the bystanders' replies must be right in themselves (a client that hung up without reading has none)
+			if sc.Conns[ci].AbortMid {
+				continue
+			}
 			if cls, msg := checkReplySequence(sc.Conns[ci].Reqs, out.Conns[ci].Received); cls != "" {
 				rc.Violate(cls, "bystander", "connection %d: %s", ci, msg)
 			}
